@@ -85,10 +85,37 @@ func runC06(c *ctx) error {
 			penv = map[string]string{"FOO": "1"}
 		}
 		penvBefore := copyEnv(penv)
+		// step lists are also built and edited through the API: one list in eight gets an unknown step put two group
+		// levels below a step the parser produced (a parsed group can hold a group, but never an unknown step:
+		// the parser turns the enclosing group into the unknown step) — SignSteps refuses at every depth
+		apiEdited := false
+		if i%8 == 5 && len(p.Steps) > 0 {
+			inner := &pipeline.GroupStep{Steps: pipeline.Steps{&pipeline.CommandStep{Command: "api-built"}, &pipeline.UnknownStep{Contents: "api-built unknown step"}}}
+			outer := &pipeline.GroupStep{Steps: pipeline.Steps{&pipeline.CommandStep{Command: "api-built outer"}, inner}}
+			var groups []*pipeline.GroupStep
+			var collectG func(ss pipeline.Steps)
+			collectG = func(ss pipeline.Steps) {
+				for _, st := range ss {
+					if g, ok := st.(*pipeline.GroupStep); ok {
+						groups = append(groups, g)
+						collectG(g.Steps)
+					}
+				}
+			}
+			collectG(p.Steps)
+			if len(groups) > 0 && rng.Intn(2) == 0 {
+				g := groups[rng.Intn(len(groups))]
+				g.Steps = append(g.Steps, outer)
+			} else {
+				p.Steps = append(p.Steps, outer)
+			}
+			apiEdited = true
+			c.res.Hist("api-built.unknown-step-two-groups-down")
+		}
 		before := dump.Steps(p.Steps)
 		// the state to compare with afterwards: the same document parsed again, signatures removed
 		beforeEnc := vl.Enc(before)
-		if p0, _ := pipeline.Parse(bytes.NewReader(src)); p0 != nil {
+		if p0, _ := pipeline.Parse(bytes.NewReader(src)); p0 != nil && !apiEdited {
 			stripSigs(p0.Steps)
 			beforeEnc = vl.Enc(dump.Steps(p0.Steps))
 		}
@@ -120,6 +147,9 @@ func runC06(c *ctx) error {
 			continue
 		}
 		desc := map[string]any{"document": string(src), "pipeline_env": penvBefore, "key": k.kind}
+		if apiEdited {
+			desc["api_edit"] = "after Parse: appended GroupStep{CommandStep, GroupStep{CommandStep, UnknownStep}} to the top-level list or to a group; step tree handed to SignSteps: " + vl.Enc(before)
+		}
 		c.res.OracleChecks++
 		if listsBefore != nil {
 			var listsAfter [][]pipeline.Step
